@@ -52,6 +52,7 @@ func c04Extra(c *core.Ctx) {
 	c04ReplayF04d(c)
 	t3 := time.Now()
 	c.Note("C04 extra legs: e2e %.2fs, parseip %.2fs, F-04d replay %.2fs", t1.Sub(t0).Seconds(), t2.Sub(t1).Seconds(), t3.Sub(t2).Seconds())
+	c04ClientLeg(c) // c04_client.go: the Go client as a read interface (real SMTP session -> store -> real router <- real client)
 }
 
 // ---------------------------------------------------------------------------------------------------------------
